@@ -35,7 +35,7 @@ type sessionSpec struct {
 	Steps []stepSpec `json:"steps"`
 }
 
-var patterns = []string{`{"a":"?x"}`, `{"a":1}`, `{"b":"?y"}`, `{"a":1,"b":2}`, `{"c":"?z"}`, `{"a":2}`, `{"?k":"v"}`, `{"?k":1}`, `{"?":7}`, `{"l":["?e"]}`}
+var patterns = []string{`{"a":"?x"}`, `{"a":1}`, `{"b":"?y"}`, `{"a":1,"b":2}`, `{"c":"?z"}`, `{"a":2}`, `{"?k":"v"}`, `{"?k":1}`, `{"?":7}`, `{"l":["?e"]}`, `{"a":"?x","opt":"??o"}`, `{"b":1,"zz":"??z","yy":"??y"}`}
 var lines = []string{`{"a":1}`, `{"a":2}`, `{"b":1}`, `{"a":1,"b":2}`, `{"c":3}`, `{"d":4}`, `not json at all`, `{"a":1}`, `{"b":2,"a":2}`,
 	`{"k":"v"}`, `{"l":[1,2]}`, `{"l":[]}`,
 	// not JSON, although a prefix is
@@ -163,7 +163,11 @@ func Run(cfg fw.Config, rec *fw.Rec) {
 		r := cfg.Rng("c19", i)
 		s := &sessionSpec{}
 		family := "random"
-		switch i % 6 {
+		fam := i % 6
+		if fam == 4 && i%12 != 4 {
+			fam = 5 // random
+		}
+		switch fam {
 		case 0:
 			// expected {A,B}; the stream has A twice and never B
 			family = "duplicate_instead_of_other"
@@ -187,6 +191,16 @@ func Run(cfg fw.Config, rec *fw.Rec) {
 			s.Steps = []stepSpec{{Inputs: []string{`{"b":1}`, `{"a":1}`}, Outputs: []outSpec{{Pattern: `{"a":"?x"}`, Guard: "none"}, {Pattern: `{"b":"?y"}`, Guard: "none", Inverted: true}}}}
 			if r.Intn(2) == 0 {
 				s.Steps[0].Inputs = []string{`{"a":1,"b":2}`}
+			}
+		case 4:
+			// a forbidden pattern with an optional variable matches a message that lacks the
+			// optional property (and so has fewer properties than the pattern)
+			family = "inverted"
+			s.Steps = []stepSpec{{Inputs: []string{`{"status":"failed"}`, `{"a":1}`},
+				Outputs: []outSpec{{Pattern: `{"a":"?x"}`, Guard: "none"}, {Pattern: `{"status":"failed","reason":"??r"}`, Guard: "none", Inverted: true}}}}
+			if r.Intn(2) == 0 {
+				s.Steps[0].Inputs = []string{`{"a":1}`, `{"b":2}`}
+				s.Steps[0].Outputs = []outSpec{{Pattern: `{"a":"?x","more":"??m","evenmore":"??n"}`, Guard: "none"}, {Pattern: `{"b":"?y","opt":"??o"}`, Guard: "none"}}
 			}
 		case 3:
 			// lines longer than a reader's buffer (4096 bytes is bufio's default): a long
